@@ -91,13 +91,16 @@ impl Prop for C14 {
     fn strategy(tier: Tier) -> BoxedStrategy<Case> {
         let mut p = params(tier);
         p.regime_pct = 70;
+        // amounts from a hundredth of a kWh to 500 MWh in one step: a very seasonal production (steps
+        // that are a negligible share of the year) is where relative thresholds bite
+        let amount = || prop_oneof![2 => 1u32..=100, 5 => 1u32..=100_000, 2 => 1_000_000u32..=50_000_000];
         let inc = prop_oneof![
             3 => Just(Inc::Zero),
-            2 => (1u32..=100_000).prop_map(Inc::Cents),
+            2 => amount().prop_map(Inc::Cents),
             2 => Just(Inc::Fill),
             1 => Just(Inc::HalfFill),
-            2 => (1u32..=100_000).prop_map(Inc::Over),
-            2 => (1u32..=100_000).prop_map(Inc::SurplusOnly),
+            2 => amount().prop_map(Inc::Over),
+            2 => amount().prop_map(Inc::SurplusOnly),
         ];
         (
             building(&p),
